@@ -182,31 +182,38 @@ class PricerStub:
 
 
 def replay_calibration(sc):
-    """real COS pricer and Brent: calibrate the default parameter of the model and reprice"""
-    mt = getattr(ModelType, sc["model"])
-    model = MU.create_exponential_of_levy_model(mt)(spot=90.0, r=0.05, d=0.03)
-    before = copy.deepcopy(vars(model.levy_model.parameters))
-    try:
-        cal = MU.run_default_calibration(model, maturity=1.0, bs_sigma=0.12)
-    except ValueError as e:
-        return False, f"no solution in the default interval: {e}"
-    except TypeError as e:
-        return True, f"{sc['model']}: run_default_calibration(model, maturity=1.0, bs_sigma=0.12) raises TypeError: {e}"
+    """real COS pricer and Brent: calibrate the default parameter of the model to several Black-Scholes volatilities (the largest ones have
+    their root beyond the configured interval: the only legitimate outcome there is the ValueError) and reprice"""
     from rpylib.numerical.cosmethod import COSPricer
     from rpylib.numerical.closedform.cfblackscholes import CFBlackScholes
 
-    call = MU.Product(payoff_underlying=MU.Spot(), payoff=MU.Vanilla(strike=model.spot, payoff_type=MU.PayoffType.CALL), maturity=1.0)
-    got = COSPricer(cal).price(product=call)
-    bs = MU.create_exponential_of_levy_model(ModelType.BLACKSCHOLES)(spot=model.spot, r=model.r, d=model.d, sigma=0.12)
-    want = CFBlackScholes(bs).call(strike=model.spot, maturity=1.0)
+    mt = getattr(ModelType, sc["model"])
+    conf = MU.default_calibration[mt]
+    a, b = conf.parameter_interval
     details = []
-    if abs(got - want) > 1e-6:
-        details.append(f"calibrated ATM call {got!r} vs Black-Scholes target {want!r}")
-    if vars(model.levy_model.parameters) != before:
-        details.append("the input model's parameters were modified")
-    if type(cal) is not type(model):
-        details.append(f"returned {type(cal).__name__}")
-    return bool(details), f"{sc['model']}: " + "; ".join(details)
+    for bs_sigma in sc.get("bs_sigmas", [0.12, 0.8, 1.2]):
+        model = MU.create_exponential_of_levy_model(mt)(spot=90.0, r=0.05, d=0.03)
+        before = copy.deepcopy(vars(model.levy_model.parameters))
+        try:
+            cal = MU.run_default_calibration(model, maturity=1.0, bs_sigma=bs_sigma)
+        except ValueError:
+            continue  # no solution in the default interval
+        except TypeError as e:
+            return True, f"{sc['model']}: run_default_calibration(model, maturity=1.0, bs_sigma={bs_sigma}) raises TypeError: {e}"
+        call = MU.Product(payoff_underlying=MU.Spot(), payoff=MU.Vanilla(strike=model.spot, payoff_type=MU.PayoffType.CALL), maturity=1.0)
+        got = COSPricer(cal).price(product=call)
+        bs = MU.create_exponential_of_levy_model(ModelType.BLACKSCHOLES)(spot=model.spot, r=model.r, d=model.d, sigma=bs_sigma)
+        want = CFBlackScholes(bs).call(strike=model.spot, maturity=1.0)
+        if abs(got - want) > 1e-6:
+            details.append(f"bs_sigma={bs_sigma}: calibrated ATM call {got!r} vs Black-Scholes target {want!r}")
+        x = getattr(cal.levy_model.parameters, conf.parameter)
+        if not (a <= x <= b):
+            details.append(f"bs_sigma={bs_sigma}: calibrated {conf.parameter} = {x!r} outside the configured interval {conf.parameter_interval}")
+        if vars(model.levy_model.parameters) != before:
+            details.append(f"bs_sigma={bs_sigma}: the input model's parameters were modified")
+        if type(cal) is not type(model):
+            details.append(f"bs_sigma={bs_sigma}: returned {type(cal).__name__}")
+    return bool(details), f"{sc['model']}: " + "; ".join(details[:3])
 
 
 def h_calibrate(ctx, mt_name):
